@@ -382,6 +382,9 @@ pub fn check_case(c: &Case) -> Outcome {
                     // `Unlinked(None)` and `Unlinked(Some(""))` have the same wire form.
                     (None, Some(b)) if b.is_empty() && c.kind == Kind::Unlinked => Ok(()),
                     (Some(w), None) if w.is_empty() && c.kind == Kind::Unlinked => Ok(()),
+                    // a body of blanks only: the blanks in front of a body are dropped, what is left
+                    // is the empty body (same wire form as no body)
+                    (Some(w), None) if strip(w).is_empty() && c.kind == Kind::Unlinked => body_matches(w, ""),
                     (Some(w), Some(b)) => body_matches(w, b),
                     (w, b) => Err(format!("written {:?}, read {:?}", w, b)),
                 };
